@@ -6,6 +6,7 @@ import sys
 import common
 sys.path.insert(0, os.path.join(common.VERIF, "tx"))
 import krylovsites as txks
+import svdqn as txsq
 
 KRYLOV_RTOL = 1e-5            # the routine's convergence test: allclose(res, new_res) with rtol=1e-5 (atol=1e-8)
 KRYLOV_TOL = 10 * KRYLOV_RTOL
@@ -72,6 +73,31 @@ for dt in (-0.3, -0.3j):
 sys.exit(1 if worst > 1e-4 else 0)
 '''
 
+EIGH_REPRO = r'''
+# eigh_qn must restore exactly the symmetry-allowed part of the density matrix.  Reference: brute-force element-wise
+# projection (entry (i,j) survives iff both indices carry the same label q and the complementary side offers qntot - q).
+# The density matrix is a generic positive Hermitian matrix: it has weight in every sector, one-sided ones included.
+import sys, renormalizer, numpy as np
+from renormalizer.mps.svd_qn import eigh_qn
+qnl, qnr, qntot, system, cplx = %r, %r, %r, %r, %r
+qnl = np.array(qnl, dtype=int); qnr = np.array(qnr, dtype=int); qntot = np.array(qntot, dtype=int)
+qn, comp = (qnl, qnr) if system == "L" else (qnr, qnl)
+N = len(qn); rng = np.random.default_rng(0)
+g = rng.standard_normal((N, N)) + (1j * rng.standard_normal((N, N)) if cplx else 0)
+dm = g @ g.conj().T + np.eye(N)
+ref = np.zeros_like(dm)
+for i in range(N):
+    partner = any((c == qntot - qn[i]).all() for c in comp)
+    for j in range(N):
+        if partner and (qn[i] == qn[j]).all():
+            ref[i, j] = dm[i, j]
+u, s, new_qn = eigh_qn(dm.copy(), qnl, qnr, qntot, system)
+err = np.abs((u * s ** 2) @ u.conj().T - ref).max()
+orphans = [list(map(int, np.ravel(q))) for q in new_qn if not any((c == qntot - np.ravel(q)).all() for c in comp)]
+print("max |U s^2 U^H - projection(dm)| =", err, " columns whose label has no partner:", orphans)
+sys.exit(1 if err > 1e-8 * np.abs(dm).max() or orphans else 0)
+'''
+
 GENERIC_REPRO = r'''
 # re-runs the stored case(s) through the C18 implementation runner (wrapping the real svd_qn / eigh_qn / expm_krylov)
 import json, subprocess, sys
@@ -123,6 +149,23 @@ def gen_eigh_case(rng, cid, malformed=False):
     c["kind"] = "eigh"
     c["system"] = rng.choice(["L", "R"])
     c["junk"] = rng.random() < 0.5
+    c["dm"] = rng.choice(["state", "state", "generic", "generic", "indefinite"])
+    return c
+
+
+# always run first: hand-made label patterns with a one-sided sector and a generic positive density matrix (weight there)
+EIGH_CORPUS = [
+    {"qnl": [[0], [1], [1], [2], [0], [2]], "qnr": [[0], [1], [1], [0]], "qntot": [1], "system": "L"},     # sector 2 needs partner -1
+    {"qnl": [[0], [1]], "qnr": [[1], [3], [1], [0]], "qntot": [1], "system": "R"},                           # sector 3 needs partner -2
+    {"qnl": [[0, 1], [1, 0], [1, 1]], "qnr": [[1, 0], [0, 1], [2, 2]], "qntot": [1, 1], "system": "L"},     # (1,1) needs (0,0)
+    {"qnl": [[0, 1], [1, 0], [1, 1]], "qnr": [[1, 0], [0, 1], [2, 2]], "qntot": [1, 1], "system": "R"},     # (2,2) needs (-1,-1)
+]
+
+
+def corpus_eigh_case(k, cid, cplx):
+    c = dict(EIGH_CORPUS[k])
+    c.update({"id": cid, "kind": "eigh", "pattern": "one_sided", "shape_l": [len(c["qnl"])], "shape_r": [len(c["qnr"])], "QR": False,
+              "full": False, "opt": False, "complex": cplx, "data": "rand", "malformed": False, "junk": False, "dm": "generic"})
     return c
 
 
@@ -173,17 +216,17 @@ def full_order(keys, labels):
     return out
 
 
-HDR = "From RV Require Import Model.SvdQn Model.Krylov.\nFrom Coq Require Import List ZArith Arith Bool.\nImport ListNotations.\nOpen Scope Z_scope.\n"
+HDR = "From RV Require Import Model.SvdQn Model.Krylov Gen.SvdQnShape.\nFrom Coq Require Import List ZArith Arith Bool.\nImport ListNotations.\nOpen Scope Z_scope.\n"
 
 
 def svd_eval_line(c, r):
     if c["kind"] == "svd":
         order = full_order(r["order"], c["qnl"])
-        return "Eval vm_compute in (svd_case %s %s %s %s %s (map Z.to_nat %s))." % (
+        return "Eval vm_compute in (svd_case src_shape %s %s %s %s %s (map Z.to_nat %s))." % (
             mode_txt(c), llist(c["qnl"]), llist(c["qnr"]), zlist(c["qntot"]), llist(order), zlist(r["perm"]))
     qn, comp = (c["qnl"], c["qnr"]) if c["system"] == "L" else (c["qnr"], c["qnl"])
     order = full_order(r["order"], qn)
-    return "Eval vm_compute in (eigh_case %s %s %s %s)." % (llist(qn), llist(comp), zlist(c["qntot"]), llist(order))
+    return "Eval vm_compute in (eigh_case src_shape %s %s %s %s)." % (llist(qn), llist(comp), zlist(c["qntot"]), llist(order))
 
 
 def krylov_eval_line(c, r):
@@ -218,6 +261,14 @@ def run_shards(ctx, script, payloads, timeout):
     return res
 
 
+def shape_diff_pre(shape):
+    if shape is None:
+        return {}
+    ref = {k: True for k in shape}
+    ref.update({"sh_u_label": "LabNl", "sh_u_index": "IdxL", "sh_v_label": "LabNr", "sh_v_index": "IdxR"})
+    return {k: shape[k] for k in shape if shape[k] != ref[k]}
+
+
 def chunks(xs, k):
     return [xs[i:i + k] for i in range(0, len(xs), k)]
 
@@ -228,6 +279,7 @@ def run(ctx):
     seed = ctx.seed
     ctx.trusted += [
         "translator tx/krylovsites.py (python ast scan of every expm_krylov call; fail-closed) and its classification rules",
+        "translator tx/svdqn.py (statement-by-statement reading of svd_qn.py into the constants of Gen/SvdQnShape.v; fail-closed: unknown statements raise)",
         "hand-written models coq/Model/SvdQn.v and coq/Model/Krylov.v, tied to the code by harness/c18.py: logged blockappend arguments / argsort result / _expm_krylov call frames vs the models' vm_compute output (exact integers)",
         "witness loggers in harness/impl/c18_*.py (module-level proxies for scipy.linalg and np inside svd_qn, frame inspection in expm_krylov), NumPy/SciPy oracles",
         "modelled, not verified: LAPACK svd/qr/rq/eigh (contract checked on every logged call), binary64 rounding, the Krylov convergence test allclose(res,new_res) (accuracy in the ordinary exit is measured, not proved), eigh_tridiagonal",
@@ -243,6 +295,14 @@ def run(ctx):
     except Exception as e:
         ctx.notes.append("translator tx/krylovsites.py failed: %r" % (e,))
         broken.append("translator tx/krylovsites.py")
+    shape = None
+    try:
+        text_s, shape = txsq.main(common.REPO)
+        ctx.regen(txsq.TARGET, text_s)
+    except Exception as e:
+        ctx.notes.append("translator tx/svdqn.py failed: %r" % (e,))
+        ctx.regen(txsq.TARGET, txsq.render_failed(str(e)))
+        broken.append("translator tx/svdqn.py (a statement of svd_qn / eigh_qn / blockappend / blockrecover / get_qn_mask is not one it knows): %s" % (str(e)[:400],))
     # ---------------------------------------------------------------- 2. proofs
     ok_build, log = (False, "translator failed") if sites is None else ctx.coq_make(["Proofs/SvdQnProofs.vo", "Proofs/KrylovProofs.vo"])
     ok_props = False
@@ -250,14 +310,28 @@ def run(ctx):
         ok_props, log = ctx.props("Props/C18.v")
     else:
         ctx.obligations.append({"name": "C18 (build of Gen/KrylovSites.v + Proofs/SvdQnProofs.v + Proofs/KrylovProofs.v)", "file": "Proofs", "ok": False, "assumptions": None})
-    if sites is not None and not (ok_build and ok_props):
+    if shape_diff_pre(shape):
+        broken.append("C18_source_shape (Proofs.SvdQnProofs.shape_ok: src_shape = ref_shape): the source no longer has the structural fact(s) %s the model and its proofs are written for" % (shape_diff_pre(shape),))
+    if sites is not None and shape is not None and not (ok_build and ok_props):
         broken.append("theorem(s) of Props/C18.v: " + ", ".join(o["name"] for o in ctx.obligations if not o["ok"]))
-    model_ok = os.path.exists(os.path.join(common.COQ, "Model", "SvdQn.vo")) and os.path.exists(os.path.join(common.COQ, "Model", "Krylov.vo"))
+    if not ok_build:
+        # the proofs did not build (e.g. src_shape <> ref_shape): the models and the generated tables are still needed for the tie
+        ctx.coq_make(["Gen/SvdQnShape.vo", "Gen/KrylovSites.vo"])
+    model_ok = all(os.path.exists(os.path.join(common.COQ, *p)) for p in (("Model", "SvdQn.vo"), ("Model", "Krylov.vo"), ("Gen", "SvdQnShape.vo")))
+    shape_diff = None
+    if shape is not None:
+        ref = {k: True for k in shape}
+        ref.update({"sh_u_label": "LabNl", "sh_u_index": "IdxL", "sh_v_label": "LabNr", "sh_v_index": "IdxR"})
+        shape_diff = {k: shape[k] for k in shape if shape[k] != ref[k]}
+        if shape_diff:
+            ctx.notes.append({"source shape differs from the model's reference shape": shape_diff})
 
     # ---------------------------------------------------------------- 3. svd_qn / eigh_qn: implementation + oracle
     n_svd, n_eigh, n_kry, n_dtype = (420, 100, 360, 12) if quick else (6000, 1500, 6000, 60)
     rng = ctx.rng
     cases = []
+    for k in range(len(EIGH_CORPUS)):
+        cases.append(corpus_eigh_case(k, len(cases), cplx=bool(k % 2)))
     for i in range(n_svd):
         cases.append(gen_svd_case(rng, len(cases), malformed=(i % 25 == 24)))
     for i in range(n_eigh):
@@ -350,6 +424,11 @@ def run(ctx):
             why.append("reference values disagree (%.3g): oracle unusable for this case" % r["refgap"])
         if r["lanczos_inner"] > 1e-9:
             why.append("Lanczos three-term relation violated on logged alpha/beta/V (%.3g)" % r["lanczos_inner"])
+        if r["ret_gap"] > 1e-9:
+            why.append("returned vector is not ||v|| V exp(dt T) e1 for the logged alpha/beta/V (%.3g)" % r["ret_gap"])
+        if r.get("complete") is not None:
+            kstat["fullspace_max_noncomplete"] = max(kstat.get("fullspace_max_noncomplete", 0.0), r["complete"])
+            kstat["fullspace_max_lanczos_last"] = max(kstat.get("fullspace_max_lanczos_last", 0.0), r["lanczos_last"])
         if r["exit"] == 1 and r["lanczos_last"] > 1e-9:
             why.append("breakdown exit but A V != V T (%.3g)" % r["lanczos_last"])
         if not r["slices_ok"] or r["it"] != r["calls"][-1] + 1 or r["exit"] not in (0, 1, 2):
@@ -456,13 +535,22 @@ def run(ctx):
                       {"out": impl_fail[:3]}, found=False)
     if broken:
         ctx.violation("c18-proofs", "; ".join(broken), {"coq_log_tail": log[-2000:] if isinstance(log, str) else "",
+                      "source_shape_differs_from_model (C18_source_shape / shape_ok)": shape_diff,
                       "hint": "if Proofs/KrylovProofs.v fails at sites_hermitian_b, a call site of expm_krylov no longer passes a (verifiably) Hermitian operator: see the sites table in the evidence notes and the cmf / site violation of this run"}, found=False)
     if oracle_bad:
         svd_b = [b for b in oracle_bad if b["case"]["kind"] == "svd"]
         eig_b = [b for b in oracle_bad if b["case"]["kind"] == "eigh"]
         for key, lst in (("svd_qn-contract", svd_b), ("eigh_qn-contract", eig_b)):
             if lst:
-                mini = min(lst, key=lambda b: len(b["case"]["qnl"]) * len(b["case"]["qnr"]))
+                mini = min(lst, key=lambda b: (b["case"]["id"] >= len(EIGH_CORPUS), len(b["case"]["qnl"]) * len(b["case"]["qnr"])))
+                if key == "eigh_qn-contract":
+                    mc = mini["case"]
+                    snippet = EIGH_REPRO % (mc["qnl"], mc["qnr"], mc["qntot"], mc["system"], bool(mc.get("complex")))
+                    rc_s, out_s = common.sh([common.IMPL_PY, "-c", snippet], env=common.impl_env(), cwd="/", timeout=300)
+                    if rc_s == 1:              # the self-contained brute-force repro fails on this tree: use it
+                        ctx.violation(key, "eigh_qn_sound fails on the real code (brute-force element-wise projection of a generic positive density matrix)",
+                                      {"failing": len(lst), "smallest": mini, "repro_output": out_s[-600:]}, found=True, repro=snippet)
+                        continue
                 ctx.violation(key, "svd_qn_sound / eigh_qn_sound fail on the real code (NumPy oracle on the result)",
                               {"failing": len(lst), "smallest": mini}, found=True,
                               repro=GENERIC_REPRO % (json.dumps({"seed": seed, "cases": [mini["case"]]}), os.path.join(impl_script, "c18_svdqn.py"),
